@@ -357,6 +357,28 @@ func (r *Runner) execMacro(a Action) {
 			w.Mu.Unlock()
 		}
 		r.exec(Action{Op: "heal"})
+	case "snapcfg":
+		// a snapshot is requested while the state machine is busy with a burst
+		// of commands and a membership change commits behind them
+		li, L := r.leader()
+		if L == nil {
+			return
+		}
+		r.doApply(L, max(2, a.N), 0)
+		r.doSnapshot(L)
+		kind := []string{"addnonvoter", "demote", "addvoter", "remove"}[a.Arg%4]
+		member := 0
+		if len(a.Set) > 0 {
+			member = a.Set[0] % len(r.ids)
+		}
+		if member == li {
+			member = (member + 1) % len(r.ids)
+		}
+		if !r.neverStarted(member) {
+			r.doMembership(L, kind, member, 0)
+		}
+		r.feat("snapshot-racing-a-membership-change")
+		w.Advance(30*time.Millisecond, r.sample)
 	case "inheritedtail":
 		// commands reach the followers but their acknowledgements are lost, so
 		// nothing commits; every server is cut off until the leader's lease runs
